@@ -434,6 +434,16 @@ func TestC20(t *testing.T) {
 			}
 			if c.Bool(label + ".statefile") {
 				st.System.StatePath = filepath.Join(work, label+"-state.json")
+				if c.Chance(label+".statefile.of-an-earlier-run", 1, 2) {
+					// An earlier run of this router left its state file; it had not
+					// heard of any router ("{}" is what the storage writes then), or
+					// only its router list / mapping list is empty.
+					body := core.OneOf(c, label+".statefile.body", `{}`, `{}`, `{"routers":{}}`, `{"mappings":{}}`, "{}\n")
+					if err := os.WriteFile(st.System.StatePath, []byte(body), 0o600); err != nil {
+						c.Fatalf("write state file: %v", err)
+					}
+					c.Class("state-file-of-an-earlier-run-that-learned-nothing")
+				}
 			}
 			if c.Chance(label+".api", 1, 3) {
 				st.System.APIListen = fmt.Sprintf("127.0.0.1:%d", c20FreePort())
